@@ -242,6 +242,9 @@ func (j *mergejoin[T]) onSubCollectionEventHandler(o []Event[T]) {
 			if j.log.DebugEnabled() {
 				j.log.WithLabels("res", objKey).Debugf("handled delete")
 			}
+			// The delete event (with the cached object as Old) is queued above; do not fall through and
+			// deliver the refreshed input event as a second delete.
+			continue
 		} else {
 			// We can trust these events as authoritative because we checked the state of the collections
 			// in refreshEvents.
